@@ -424,7 +424,7 @@ func (ne *nitroEnv) finalStages() {
 	if snaps := ne.db.GetSnapshots(); len(snaps) != 0 {
 		env.Violate("C08", "snapshot-not-retired", "GetSnapshots() lists %d snapshots after every handle was closed", len(snaps))
 	}
-	if ne.mm {
+	if ne.mm && !ne.allocShared {
 		// C17 at nitro level: idle database holds no unlinked-but-unfreed nodes
 		phys, _ := ne.physicalSet()
 		live := ne.ga.LiveByClass()
@@ -443,9 +443,10 @@ func (ne *nitroEnv) finalStages() {
 	if !env.Finish(s.Run(), "C07") {
 		return
 	}
-	if ne.mm {
-		for cls, n := range ne.ga.LiveByClass() {
-			if n != 0 {
+	if ne.mm && !ne.allocShared {
+		lbc := ne.ga.LiveByClass()
+		for _, cls := range []string{"item", "node", "sentinel"} {
+			if n := lbc[cls]; n != 0 {
 				env.Violate("C07", "leak/"+cls, "%d %s block(s) never returned to the allocator after Close (live by class: %v)", n, cls, ne.ga.LiveByClass())
 			}
 		}
